@@ -29,19 +29,20 @@ def terminal_all_impl(impl, names=None):
     return L
 
 
-def run_model(init, history, seed, inject=None, dtype=np.complex128, detach=None):
+def run_model(init, history, seed, inject=None, dtype=np.complex128, detach=None, raw_ok=None):
     m = Model(init, dtype, inject=inject, seed=seed)
     m.detach = detach
+    m.raw_ok = raw_ok
     for st in history:
         m.apply(tuple(st))
     return m
 
 
-def expected_grads(init, history, seed, terminal=terminal_all_model, upto=None, detach=None):
+def expected_grads(init, history, seed, terminal=terminal_all_model, upto=None, detach=None, raw_ok=None):
     """-> (model, {name: expected grad}) for every live slot.  `upto`: number of statements of the
     history that the recorded computation consists of (default all)."""
     h = history if upto is None else history[:upto]
-    m0 = run_model(init, h, seed, detach=detach)
+    m0 = run_model(init, h, seed, detach=detach, raw_ok=raw_ok)
     exp = {}
     G = {}
     for fam in sorted(set(m0.fam[n] for n in m0.order), key=str):
@@ -53,7 +54,7 @@ def expected_grads(init, history, seed, terminal=terminal_all_model, upto=None, 
         tau = max(m0.version[fam], m0.created[owner])
         g = np.zeros(n_el)
         for k in range(n_el):
-            m = run_model(init, h, seed, inject=(owner, k, tau), detach=detach)
+            m = run_model(init, h, seed, inject=(owner, k, tau), detach=detach, raw_ok=raw_ok)
             g[k] = np.imag(terminal(m)) / H_STEP
         G[fam] = (owner, g)
     for n in m0.order:
